@@ -113,10 +113,12 @@ def HDKey.derive {E : EcOps} (env : Env) (k : HDKey E) : List Int → Option (HD
 
 /-! ### derivation paths as text -/
 
-def isSpace (c : UInt8) : Bool := (0x09 ≤ c && c ≤ 0x0d) || (0x1c ≤ c && c ≤ 0x20)
+/-- the ASCII white space `int()` strips: 9–13 and 32 (NOT 0x1c–0x1f, which only `str.strip()` strips:
+    `int("0\x1f")` raises ValueError on CPython 3.12, so `parse_path("m/0\x1f")` raises) -/
+def isSpace (c : UInt8) : Bool := (0x09 ≤ c && c ≤ 0x0d) || c = 0x20
 def isDigit (c : UInt8) : Bool := 0x30 ≤ c && c ≤ 0x39
 
-/-- `str.strip()` as used by `int()` -/
+/-- the stripping of surrounding white space done by `int()` -/
 def stripSpace (t : Text) : Text := ((t.dropWhile isSpace).reverse.dropWhile isSpace).reverse
 
 /-- digits with single underscores between them (the part of an `int()` literal after the sign), value
